@@ -29,3 +29,6 @@ ASSUMPTIONS = [
     "fault configuration asserts exact-or-raises, never wrong data; fault-free configuration asserts exact equality",
     "header parsing (Path.open) is outside the seam and runs fault-free",
 ]
+
+# dimensions added in seeded rounds 6 and 7
+PROBES = list(PROBES) + ["integer-arguments-as-numpy-scalars"]
